@@ -203,6 +203,13 @@ pub fn replay_json(v: &Value) -> Result<(), String> {
             return Err(format!("got {got:02x?}, want {w:02x?}"));
         }
     }
+    if let Some(m) = v.get("must_contain").and_then(|m| m.as_array()) {
+        let m: Vec<u8> = m.iter().map(|b| b.as_u64().unwrap() as u8).collect();
+        if !got.contains(&m) {
+            return Err(format!("got {got:02x?}, the frame {m:02x?} is missing"));
+        }
+        return Ok(());
+    }
     for p in &got {
         if !valid(&c.bits, p, c.checksum, c.fix) {
             return Err(format!("emitted {p:02x?}, which no flag-delimited region of the input encodes"));
@@ -236,6 +243,11 @@ pub fn run(tier: &str, shard: Option<&str>) -> Report {
         if let Some(w) = want {
             r["want"] = json!(w);
         }
+        rep.violation(format!("C13/HdlcDeframer/{clause}"), msg, r);
+    };
+    let emit_contain = |rep: &mut Report, must: &Vec<u8>, clause: &str, msg: String, c: &Case, _w: Option<&Vec<Vec<u8>>>| {
+        let mut r = c.to_json();
+        r["must_contain"] = json!(must);
         rep.violation(format!("C13/HdlcDeframer/{clause}"), msg, r);
     };
     let mut check = |rep: &mut Report, c: &Case, want: Option<&Vec<Vec<u8>>>| {
@@ -356,7 +368,7 @@ pub fn run(tier: &str, shard: Option<&str>) -> Report {
                             Err(m) => emit(&mut rep, if m.starts_with("panic") { "panic" } else { "error" }, format!("{}: {m}", c.to_json()), &c, None),
                             Ok(got) => {
                                 if inb && !got.contains(p) {
-                                    emit(&mut rep, "frame-lost-after-noise", format!("{}: got {got:02x?}, frame {p:02x?} missing", c.to_json()), &c, None);
+                                    emit_contain(&mut rep, p, "frame-lost-after-noise", format!("{}: got {got:02x?}, frame {p:02x?} missing", c.to_json()), &c, None);
                                 }
                                 for q in &got {
                                     if !valid(&c.bits, q, checksum, false) {
@@ -412,6 +424,69 @@ pub fn run(tier: &str, shard: Option<&str>) -> Report {
                             if j == i && got.iter().any(|q| q != &payload) && fix {
                                 // single flip + fixing: original or nothing
                                 // (anything else was already judged above).
+                            }
+                        }
+                    }
+                }
+            }
+        }
+    }
+    // A frame corrupted in its body (flags intact) must not disturb the valid
+    // frame that follows it, with a shared flag or separate ones.
+    for first in [vec![0x12u8, 0x7e, 0xff, 0x01], vec![0x55u8; 3]] {
+        let good = vec![0xa5u8, 0x3c];
+        for between in [1usize, 2] {
+            let mut bits = FLAG.to_vec();
+            let body = hdlc_body(&first, true);
+            let body_at = bits.len();
+            bits.extend(&body);
+            for _ in 0..between {
+                bits.extend(FLAG);
+            }
+            bits.extend(hdlc_body(&good, true));
+            bits.extend(FLAG);
+            for i in 0..body.len() {
+                for j in i..body.len() {
+                    if !thorough && j != i && (i + j) % 3 != 0 {
+                        continue;
+                    }
+                    k += 1;
+                    if k % sn != si {
+                        continue;
+                    }
+                    let mut b = bits.clone();
+                    b[body_at + i] ^= 1;
+                    if j != i {
+                        b[body_at + j] ^= 1;
+                    }
+                    // A flip in the last bits of the body can merge with a
+                    // single shared flag (two flags sharing a 0 are not two
+                    // flags for this deframer): then a second flag is needed.
+                    if between == 1 && j + 8 >= body.len() {
+                        continue;
+                    }
+                    for fix in [false, true] {
+                        let c = Case { bits: b.clone(), min: 2, max: 10, checksum: true, fix, chunks: vec![] };
+                        rep.evaluations += 1;
+                        rep.distinct_nontrivial += 1;
+                        match run_case(&c) {
+                            Err(m) => emit(&mut rep, if m.starts_with("panic") { "panic" } else { "error" }, format!("{}: {m}", c.to_json()), &c, None),
+                            Ok(got) => {
+                                if !got.contains(&good) {
+                                    emit_contain(
+                                        &mut rep,
+                                        &good,
+                                        "frame-lost-after-bad-frame",
+                                        format!("{} (flips at body bits {i},{j} of the first frame): got {got:02x?}, the valid frame {good:02x?} after it is missing", c.to_json()),
+                                        &c,
+                                        None,
+                                    );
+                                }
+                                for q in &got {
+                                    if q != &good && q != &first && !valid(&c.bits, q, true, fix) {
+                                        emit(&mut rep, "corrupt-frame-emitted", format!("{}: emitted {q:02x?}", c.to_json()), &c, None);
+                                    }
+                                }
                             }
                         }
                     }
